@@ -337,6 +337,19 @@ func TestC19_Search(t *testing.T) {
 			idx.CmdEmbeddings = append(idx.CmdEmbeddings, rapid.SliceOfN(comp, dim, dim).Draw(t, "ce"))
 		}
 		database.VerifSetEmbeddingIndex(db, idx)
+		if rapid.Bool().Draw(t, "reused-index") {
+			// the index is a long-lived value too: search once, replace its command
+			// embeddings by a same-sized set (a reload of a regenerated file), search again
+			db.SearchUniversal(q, opt)
+			for i := range idx.CmdEmbeddings {
+				scale := rapid.SampledFrom([]float32{1, 0.01, 100}).Draw(t, "rescale")
+				v := rapid.SliceOfN(comp, dim, dim).Draw(t, "ce2")
+				for j := range v {
+					v[j] *= scale
+				}
+				idx.CmdEmbeddings[i] = v
+			}
+		}
 		with := db.SearchUniversal(q, opt)
 		database.VerifSetEmbeddingIndex(db, nil)
 		wr := rank(db, with)
